@@ -55,7 +55,7 @@ func c16CheckArbitrary(prefix, body string) (string, string) {
 		if proto != "unix" && !strings.Contains(in, addr) {
 			return fmt.Sprintf("parseProtoAddr(%q) = %q, %q: the endpoint does not occur in the input", in, proto, addr), "parse:endpoint"
 		}
-		if proto == "unix" && prefix == "unix://" && onlyChars(body, "tcpudnix46./a1") {
+		if proto == "unix" && prefix == "unix://" && (onlyChars(body, "tcpudnix46./a1") || (strings.HasPrefix(body, "/") && onlyChars(body, "tcpudnix46./a1%"))) {
 			if want := path.Clean(body); addr != want {
 				return fmt.Sprintf("parseProtoAddr(%q) = unix, %q; want the cleaned path %q", in, addr, want), "parse:unixpath"
 			}
@@ -80,6 +80,9 @@ func c16CheckArbitrary(prefix, body string) (string, string) {
 	}
 	if (prefix == "tcp://" || prefix == "udp6://" || prefix == "unix://") && body != "" && onlyChars(body, "tcpudnixa") {
 		return fmt.Sprintf("parseProtoAddr(%q) failed: %v", in, err), "parse:rejectedvalid"
+	}
+	if prefix == "unix://" && strings.HasPrefix(body, "/") && len(body) > 1 && onlyChars(body, "tcpudnix46./a1%") {
+		return fmt.Sprintf("parseProtoAddr(%q) failed: %v; an absolute unix path may contain any number of '%%' characters", in, err), "parse:rejectedvalid"
 	}
 	return "", ""
 }
@@ -173,24 +176,45 @@ func c16Options(report func(sig, msg string, v int)) (n int64) {
 		}
 	}
 	eh := &BuiltinEventEngine{}
-	for _, v := range vals {
+	checkOne := func(where string, o *Options, r, wr, ch int) {
+		if o.ReadBufferCap != wantCap(r) {
+			report("opt:readcap", fmt.Sprintf("%s: ReadBufferCap %d (with WriteBufferCap %d) normalised to %d, want %d", where, r, wr, o.ReadBufferCap, wantCap(r)), r)
+		}
+		if o.WriteBufferCap != wantCap(wr) {
+			report("opt:writecap", fmt.Sprintf("%s: WriteBufferCap %d (with ReadBufferCap %d) normalised to %d, want %d", where, wr, r, o.WriteBufferCap, wantCap(wr)), wr)
+		}
+		if ch > 0 {
+			p := 2
+			for p < ch {
+				p <<= 1
+			}
+			if o.EdgeTriggeredIOChunk != p || !o.EdgeTriggeredIO {
+				report("opt:chunk", fmt.Sprintf("%s: EdgeTriggeredIOChunk %d normalised to %d (ET=%v), want %d", where, ch, o.EdgeTriggeredIOChunk, o.EdgeTriggeredIO, p), ch)
+			}
+		}
+	}
+	_ = check
+	for i, v := range vals {
+		// the three options are independent: pair every value with different values of the other two
+		wr := vals[(i*7+3)%len(vals)]
+		ch := vals[(i*13+5)%len(vals)]
 		func() {
 			defer func() {
 				if r := recover(); r != nil {
-					report("opt:panic", fmt.Sprintf("option normalisation panicked for %d: %v", v, r), v)
+					report("opt:panic", fmt.Sprintf("option normalisation panicked for read=%d write=%d chunk=%d: %v", v, wr, ch, r), v)
 				}
 			}()
-			_, o, err := createListeners(nil, WithReadBufferCap(v), WithWriteBufferCap(v), WithEdgeTriggeredIOChunk(v))
+			_, o, err := createListeners(nil, WithReadBufferCap(v), WithWriteBufferCap(wr), WithEdgeTriggeredIOChunk(ch))
 			if err != nil {
 				report("opt:err", fmt.Sprintf("createListeners with capacity %d failed: %v", v, err), v)
 			} else {
-				check("createListeners", o, v)
+				checkOne("createListeners", o, v, wr, ch)
 			}
-			cli, err := NewClient(eh, WithReadBufferCap(v), WithWriteBufferCap(v), WithEdgeTriggeredIOChunk(v))
+			cli, err := NewClient(eh, WithReadBufferCap(v), WithWriteBufferCap(wr), WithEdgeTriggeredIOChunk(ch))
 			if err != nil {
 				report("opt:err", fmt.Sprintf("NewClient with capacity %d failed: %v", v, err), v)
 			} else {
-				check("NewClient", cli.opts, v)
+				checkOne("NewClient", cli.opts, v, wr, ch)
 			}
 		}()
 		n += 2
